@@ -76,3 +76,20 @@ Fixpoint src_eqb (a b : src) : bool :=
   | SCached _ ia, SCached _ ib => src_eqb ia ib
   | _, _ => false
   end.
+
+(* ---------- the class on which the hasher stream is injective (C20) ---------- *)
+(* The stream of a ConcatSource is its type tag followed by the streams of its children, with no
+   length prefix and no terminator (known finding K6).  `delim_cls top s`: with top = true, `s`
+   may be (a ReplaceSource chain around) a ConcatSource; with top = false it may not.  Children of
+   a ConcatSource are checked with top = false; the inner source of a CachedSource with top =
+   true (it feeds a single u64 digest).  Proofs/HashInjective.v: on `delimited` trees the stream
+   determines the tree up to what the hash deliberately ignores. *)
+Fixpoint delim_cls (top : bool) (s : src) : bool :=
+  match s with
+  | SConcat cs => top && forallb (delim_cls false) cs
+  | SReplace inner _ => delim_cls top inner
+  | SCached _ inner => delim_cls true inner
+  | _ => true
+  end.
+Definition no_concat (s : src) : bool := delim_cls false s.
+Definition delimited (s : src) : bool := delim_cls true s.
